@@ -131,8 +131,11 @@ def e_ook(c):
     check(isinstance(out, tuple) and len(out) == 3, "ook.DSP-return-shape", "")
     rx, eye_obj, rth = out
     check(type(rx) is binary_sequence and len(rx) == len(bits), "ook.DSP-output-length", f"{len(rx)} vs {len(bits)}")
+    d01 = float(eye_obj.mu1 - eye_obj.mu0)
+    dat = {"s_min_rel": float(min(eye_obj.s0, eye_obj.s1) / d01) if d01 > 0 else None, "thr_rel": float((rth - eye_obj.mu0) / d01) if d01 > 0 else None}
     check(np.array_equal(rx.data, bits), "ook.DSP!=transmitted", f"{int(np.sum(rx.data != bits))} errors of {len(bits)}; sps={c['sps']} shape={c['shape']} elem={c['elem']} "
-          f"bw={c['bw']:.2f} ER={c['ER']:.1f} R_load={c['R_load']:.0f} p={c['p_dbm']:.1f} dBm thr={rth}")
+          f"bw={c['bw']:.2f} ER={c['ER']:.1f} R_load={c['R_load']:.0f} p={c['p_dbm']:.1f} dBm thr={rth} (eye: mu0={eye_obj.mu0:.4g} mu1={eye_obj.mu1:.4g} "
+          f"s0={eye_obj.s0:.3g} s1={eye_obj.s1:.3g})", data=dat)
     check(float(lib(OOK.BER_analizer, "counter", Tx=binary_sequence(bits), Rx=rx)) == 0.0, "ber-counter!=0", "")
     return {"nontrivial": True, "classes": [c["kind"], c["shape"], c["elem"], f"pol{c['npol']}", "odd-sps" if c["sps"] % 2 else "even-sps"]}
 
@@ -189,6 +192,17 @@ def e_cnt(c):
     check(float(got1) == want, "ook-ber-counter!=k/n", f"{got1} vs {k}/{n}")
     check(float(got2) == want, "ppm-ber-counter!=k/n", f"{got2} vs {k}/{n}")
     return {"nontrivial": 0 < k < n, "classes": [c["form"]]}
+
+
+def classify(part, case, v):
+    """Known finding F03a: on a noise-free waveform GET_EYE measures the level spreads on every other slot only; when those slots happen to
+    carry no inter-symbol interference one sigma estimate is ~0 (< 1e-3 of the level distance), the Gaussian-optimal threshold of
+    ook.THRESHOLD_EST then lies within 2% of that level, and ISI-affected symbols of the remaining slots are mis-decided."""
+    if part == "ook_dsp" and v.tag == "ook.DSP!=transmitted":
+        d = v.data
+        if d and d.get("s_min_rel") is not None and d["s_min_rel"] < 1e-3 and (d["thr_rel"] < 0.02 or d["thr_rel"] > 0.98):
+            return "F03a"
+    return None
 
 
 PARTS = [
